@@ -76,7 +76,7 @@ class RaiseSpec:
 
 
 class LoopSpec:
-    def __init__(self, name, inv, variant=None, unfold_init=None, unfold_step=None, target=None, rebind=(), shapes=None, cells=None, case_split=()):
+    def __init__(self, name, inv, variant=None, unfold_init=None, unfold_step=None, target=None, rebind=(), shapes=None, cells=None, case_split=(), ghosts=(), asserts=None):
         self.name = name
         self.inv = inv
         self.variant = variant
@@ -85,6 +85,8 @@ class LoopSpec:
         self.target = target
         self.rebind = set(rebind)
         self.shapes = shapes or {}
+        self.ghosts = list(ghosts)  # names of engine ghost variables modified by the loop (havoc'd at the head)
+        self.asserts = asserts  # fn(c, L) -> [(label, formula)]: obligations at the normal end of an iteration
         self.case_split = list(case_split)  # [(local name or None, fn(c, L) -> int expr)]: fork the body on its values
         self.cells = cells or {}  # local name -> (elem kind) of the list cell it refers to when empty at loop entry
 
@@ -267,6 +269,10 @@ class Ctx(HeapSnap):
         m = get_module(module)
         cls = m.classes[clsname] if m is not None and clsname in m.classes else clsname
         return self.eng.new_object(cls, **fields)
+
+    def choice(self, n):
+        """contract-level case split: the function is verified once for each of the n alternatives"""
+        return self.eng.decide([None] * n)
 
     def skolem(self, name):
         """an arbitrary but fixed integer: proving a clause for it proves it for all integers"""
